@@ -1,5 +1,52 @@
-(* C02 -- placeholder until Proofs/C02.v lands. *)
-From GV Require Import Base.Prelude Model.C02.
-Theorem C02_remap_direct_length : forall key a, length (remap_direct key a) = length a.
-Proof. intros. unfold remap_direct. apply map_length. Qed.
-Print Assumptions C02_remap_direct_length.
+(* C02 -- property theorems only.  The lattice enters only through its Gram matrix; the
+   minimum-image distance computed by the window search is the TRUE minimum over all
+   lattice translations for every lattice passing the checked integer condition window_ok. *)
+From GV Require Import Base.Prelude Model.C01 Model.Geom Model.C02 Proofs.Geom Proofs.C02.
+
+(* the executable distance is the true minimum-image distance *)
+Theorem C02_window_sufficient : forall M K D f, 0 < D -> 0 <= K -> window_ok M K = true ->
+  is_min_image D (gram_of M) f (min_image_d2 D (gram_of M) K f).
+Proof. exact window_sufficient. Qed.
+Print Assumptions C02_window_sufficient.
+
+(* an atom is assigned a site exactly when that site's sphere contains it; "no site" when none does *)
+Theorem C02_admissible_spec : forall D G K f ss rs p k0 k, In k (adm_from D G K f k0 ss rs p) <->
+  exists i s r, nth_error ss i = Some s /\ nth_error rs i = Some r /\ k = k0 + Z.of_nat i /\ within D G K p s r f = true.
+Proof. exact adm_from_spec. Qed.
+Print Assumptions C02_admissible_spec.
+Theorem C02_state_sound : forall adm st, ok_state adm st = true -> st <> -99 ->
+  (adm = [] /\ st = -1) \/ (adm <> [] /\ In st adm).
+Proof. exact ok_state_sound. Qed.
+Print Assumptions C02_state_sound.
+
+(* inner sites: scaling the radius by a fraction in (0,1] only shrinks the spheres, so with a
+   unique outer assignment the inner site is 'none' or the outer site *)
+Theorem C02_inner_subset : forall D M K f k0 ss rs p, 0 <= K ->
+  (forall r, In r rs -> 0 < snd r /\ 0 <= fst r) -> 0 < fst f <= snd f ->
+  forall k, In k (adm_from D (gram_of M) K f k0 ss rs p) -> In k (adm_from D (gram_of M) K (1,1) k0 ss rs p).
+Proof. exact inner_subset. Qed.
+Print Assumptions C02_inner_subset.
+Theorem C02_inner_is_none_or_outer : forall adm_i adm_o i o,
+  (forall k, In k adm_i -> In k adm_o) -> (forall a b, In a adm_o -> In b adm_o -> a = b) ->
+  ok_state adm_i i = true -> ok_state adm_o o = true -> i <> -99 -> o <> -99 -> i = -1 \/ i = o.
+Proof. exact inner_is_none_or_outer. Qed.
+Print Assumptions C02_inner_is_none_or_outer.
+
+(* automatic radius: if 2 r does not exceed the smallest site separation, no point lies in two spheres *)
+Theorem C02_spheres_disjoint_unique : forall D M K sites r p s t, 0 < D -> 0 <= K -> window_ok M K = true ->
+  spheres_disjoint D (gram_of M) K sites r = true -> 0 < snd r -> In s sites -> In t sites ->
+  within D (gram_of M) K p s r (1,1) = true -> within D (gram_of M) K p t r (1,1) = true ->
+  qf (gram_of M) (vsub3 s t) = 0.
+Proof. exact spheres_disjoint_unique. Qed.
+Print Assumptions C02_spheres_disjoint_unique.
+
+(* per-label radii: the repaired group-local -> global index map; the rank-based map it replaced was wrong (D3) *)
+Theorem C02_remap_direct_correct : forall key a i x, nth_error a i = Some x -> 0 <= x ->
+  nth_error (remap_direct key a) i = Some (znth (-7) key x).
+Proof. exact remap_direct_correct. Qed.
+Print Assumptions C02_remap_direct_correct.
+Theorem C02_remap_rank_refuted : exists key palette a,
+  Sorted.StronglySorted Z.lt palette /\ (forall x, In x palette <-> In x a) /\
+  (forall x, In x a -> 0 <= x < Z.of_nat (length key)) /\ remap_rank key palette a <> remap_direct key a.
+Proof. exact remap_rank_refuted. Qed.
+Print Assumptions C02_remap_rank_refuted.
